@@ -319,8 +319,9 @@ func genHttpConv(r *Rand, tier string, emit func(sx.Sx)) {
 	targets := []string{"/", "/a/b/c", "/search?q=x&q=y&lang=en", "/p%20q?a=1", "/very/long/" + strings.Repeat("seg/", 40), "/x?empty=&k=v", "http://host.example/abs/path?z=1", "/api/v1/items/42"}
 	hnames := []string{"Accept", "X-Custom", "User-Agent", "Cookie", "X-Repeat", "Authorization", "Content-Type", "X-Quote"}
 	hvals := []string{"*/*", "v1", "curl/7.0", "a=1; b=2", "one", "Bearer abc.def", "application/json", "say \"hi\" \\ there", "text/plain; charset=utf-8", strings.Repeat("v", 300)}
-	statuses := []int{200, 201, 204, 301, 400, 404, 500}
-	reasons := map[int]string{200: "OK", 201: "Created", 204: "No Content", 301: "Moved Permanently", 400: "Bad Request", 404: "Not Found", 500: "Internal Server Error"}
+	statuses := []int{200, 201, 204, 301, 400, 404, 500, 200, 200, 404, 599, 600, 745, 999, 226, 451}
+	reasons := map[int]string{200: "OK", 201: "Created", 204: "No Content", 301: "Moved Permanently", 400: "Bad Request", 404: "Not Found", 500: "Internal Server Error",
+		599: "Network Timeout", 600: "Unparseable", 745: "Custom", 999: "Request denied", 226: "IM Used", 451: "Unavailable For Legal Reasons"}
 	count := 500
 	if tier == "thorough" {
 		count = 10000
@@ -333,6 +334,9 @@ func genHttpConv(r *Rand, tier string, emit func(sx.Sx)) {
 		return sx.L(hs...)
 	}
 	body := func() []byte {
+		if r.Chance(6) { // bodies that look like (the start of) an HTTP message themselves
+			return []byte([]string{"H", "HT", "HTTP", "HTTP/", "HTTP/1.", "HTTP/1.1 404 Not Found\r\nContent-Length: 0\r\n\r\n", "HTTPS", "GET / HTTP/1.1\r\n\r\n", "\r\n", "0\r\n\r\n"}[r.Intn(10)])
+		}
 		switch r.Intn(6) {
 		case 0:
 			return []byte{}
